@@ -133,6 +133,27 @@ func c06ScaleMatrix() []c06Case {
 					}
 				}
 				out = append(out, c06Case{Cond: &refmodel.Cond{Op: "in", Args: args}, Item: it, Values: vals, Tag: "big-in"})
+				// the same list with members of OTHER types mixed in (a number, a binary, a boolean, NULL, a set,
+				// a path to a missing attribute, a path to a list): they simply do not match
+				mixed := vals.Clone()
+				margs := append([]refmodel.Operand{}, args...)
+				odd := []val.V{val.Num("7"), val.Bin("e1"), val.Bool(true), val.Null(), val.SS("e1"), val.List(val.Str("e1"))}
+				for i := 0; i < n-1 && i < 100; i++ {
+					if i != hit && i%5 == 3 {
+						mixed[fmt.Sprintf(":m%d", i)] = odd[(i/5)%len(odd)]
+					}
+				}
+				if len(margs) > 4 && hit != 2 && hit != 3 {
+					margs[3] = refmodel.Operand{Kind: "path", Path: refmodel.P("nope")}
+					margs[4] = refmodel.Operand{Kind: "path", Path: refmodel.P("l")}
+					delete(mixed, ":m2")
+					delete(mixed, ":m3")
+				}
+				out = append(out, c06Case{Cond: &refmodel.Cond{Op: "in", Args: margs}, Item: it, Values: mixed, Tag: "big-in-mixed"})
+				// ... and with a NUMBER subject against string members
+				nit := it.Clone()
+				nit["s"] = val.Num("5")
+				out = append(out, c06Case{Cond: &refmodel.Cond{Op: "in", Args: args}, Item: nit, Values: vals, Tag: "big-in-mixed"})
 			}
 		}
 	}
